@@ -11,7 +11,7 @@ use crate::charsets::Charset;
 /// the stream of UTF-8 bytes into a `String`.
 #[derive(Debug)]
 pub struct TextReader<R> {
-    inner: DecodeReaderBytes<R, Vec<u8>>,
+    inner: DecodeReaderBytes<StartReplay<R>, Vec<u8>>,
     // Decoded bytes waiting for a caller that reads with small buffers.
     pending: [u8; 64],
     pending_pos: usize,
@@ -25,7 +25,9 @@ where
     /// Create a new `TextReader` with the given charset.
     pub fn new(inner: R, charset: Charset) -> Self {
         Self {
-            inner: DecodeReaderBytesBuilder::new().encoding(Some(charset)).build(inner),
+            inner: DecodeReaderBytesBuilder::new()
+                .encoding(Some(charset))
+                .build(StartReplay::new(inner)),
             pending: [0; 64],
             pending_pos: 0,
             pending_len: 0,
@@ -54,6 +56,65 @@ where
         buf[..n].copy_from_slice(&self.pending[self.pending_pos..self.pending_pos + n]);
         self.pending_pos += n;
         Ok(n)
+    }
+}
+
+/// `DecodeReaderBytes` reads the first three bytes of the stream ahead (it looks for a byte order
+/// mark) and forgets the ones it already has when the underlying reader fails before all three
+/// have arrived, with a timeout for instance. This adapter hands them out again, so that the
+/// caller can retry the read without losing the start of the text.
+#[derive(Debug)]
+struct StartReplay<R> {
+    inner: R,
+    start: [u8; 3],
+    // Bytes of the start of the stream seen so far; 3 once the read-ahead cannot fail any more.
+    seen: usize,
+    replay_pos: usize,
+    replay_len: usize,
+}
+
+impl<R> StartReplay<R> {
+    fn new(inner: R) -> Self {
+        Self {
+            inner,
+            start: [0; 3],
+            seen: 0,
+            replay_pos: 0,
+            replay_len: 0,
+        }
+    }
+}
+
+impl<R> Read for StartReplay<R>
+where
+    R: Read,
+{
+    fn read(&mut self, buf: &mut [u8]) -> io::Result<usize> {
+        if self.replay_pos < self.replay_len {
+            let n = buf.len().min(self.replay_len - self.replay_pos);
+            buf[..n].copy_from_slice(&self.start[self.replay_pos..self.replay_pos + n]);
+            self.replay_pos += n;
+            return Ok(n);
+        }
+
+        match self.inner.read(buf) {
+            Ok(n) => {
+                if self.seen < 3 {
+                    let k = n.min(3 - self.seen);
+                    self.start[self.seen..self.seen + k].copy_from_slice(&buf[..k]);
+                    self.seen += k;
+                }
+                Ok(n)
+            }
+            Err(err) => {
+                if self.seen < 3 && err.kind() != io::ErrorKind::Interrupted {
+                    // The read-ahead is given up after the first failure, later reads are passed through.
+                    self.replay_len = self.seen;
+                    self.seen = 3;
+                }
+                Err(err)
+            }
+        }
     }
 }
 
